@@ -316,7 +316,7 @@ class SymbolTable(dict):
         if default is None:
             default = SymbolAttributes(BasicType.DEFERRED)
         assert isinstance(default, SymbolAttributes)
-        super().setdefault(self.format_lookup_name(key), default.clone())
+        return super().setdefault(self.format_lookup_name(key), default.clone()).clone()
 
     def update(self, other):
         """
